@@ -319,6 +319,31 @@ impl World {
         Ok(Client::new(s))
     }
 
+    /// connect to another listener of the subject (see `start_listener_without_key_keeper_actor`)
+    pub fn connect_port(&self, listener_port: u16, sport: Option<u16>, rec: Option<&AuditRec>) -> std::io::Result<Client> {
+        if let (Some(p), Some(r)) = (sport, rec) {
+            self.inject_audit(p, r);
+        }
+        let s = rawhttp::connect_from([127, 0, 0, 1], sport, SocketAddr::from(([127, 0, 0, 1], listener_port)))?;
+        Ok(Client::new(s))
+    }
+
+    /// a second listener of the real proxy server whose key keeper handle has no actor behind it (hook
+    /// `verif_without_actor`): every rule/key lookup of a request arriving there fails, everything else (attribution
+    /// through the kernel map, the other shared states) is shared with the main listener
+    pub fn start_listener_without_key_keeper_actor(&self, port: u16) {
+        let shared = self.shared.verif_with_key_keeper(crate::shared_state::key_keeper_wrapper::KeyKeeperSharedState::verif_without_actor());
+        let server = ProxyServer::new(port, &shared);
+        self.rt.spawn(async move { server.start().await });
+        for _ in 0..800 {
+            if std::net::TcpStream::connect(("127.0.0.1", port)).is_ok() {
+                return;
+            }
+            std::thread::sleep(Duration::from_millis(10));
+        }
+        vcommon::result::machinery(&format!("second proxy listener did not come up on 127.0.0.1:{port}"));
+    }
+
     pub fn set_rules(&self, endpoint: &str, item: Option<AuthorizationItem>) {
         let kk = self.shared.get_key_keeper_shared_state();
         self.rt.block_on(async {
